@@ -522,3 +522,32 @@ def r7(ctx):
 
 
 RULES.append(("C20.R7", "T4-total/T4-namesake", "foreign structs are converted field-complete, foreign enums by name, trait adaptors forward to the namesake callback", r7))
+
+
+def r8(ctx):
+    """(a) Positional arguments across the boundary: a field `x.f` of a foreign struct handed to a library constructor whose parameter
+    is named `p`, while a struct has same-typed fields `f` and `p` (`Group12Var1::new(code, count, x.off_time, x.on_time)`), swaps
+    two values silently (shared helper arg_namesakes, with the library's parameter names). (b) A foreign timestamp whose quality is
+    InvalidTime is `None` on the library side: the hand-written layer never converts an `Option<Time>` into a bare `Time` (which maps
+    None to Unsynchronized(0)) - the seven point conversions keep the Option."""
+    ffi = ctx.ffi
+    arg_namesakes(ctx, ffi, label="ffi-arg-namesake", other=ctx.prog, only=hand_written, floor=40)
+    n = 0
+    for bd in ffi.bodies.values():
+        if not hand_written(bd):
+            continue
+        for c in bd.calls():
+            cal = c.term.declared or c.term.callee or ""
+            if not re.search(r"convert::(Into::into|From::from)$", cal):
+                continue
+            ta = c.term.d.get("targs") or []
+            n += 1
+            if len(ta) >= 2:
+                src, dst = (ta[0], ta[1]) if cal.endswith("into") else (ta[1], ta[0])
+                lossy = re.search(r"Option<.*measurement::Time>$|Option<.*app::Time>$|Option<Time>$", src) and not dst.startswith("std::option::Option") and re.search(r"(measurement::|app::|^)Time$", dst)
+                ctx.check(not lossy, "time-option-kept@%s" % short(bd.path), "%s -> %s" % (src[-40:], dst[-30:]), bd.where(c.idx), bad_detail="%s converts %s into %s: a timestamp of quality InvalidTime (None) becomes Unsynchronized(0)" % (short(bd.path), src, dst)) if lossy else None
+    if n < 100:
+        raise AnchorError("conversion calls in the adaptor layer: %d" % n)
+
+
+RULES.append(("C20.R8", "T8-namesake/T4", "positional arguments handed to the library are the parameter's namesake; an invalid time stays None", r8))
